@@ -2,6 +2,7 @@ SPECIFICATION TSpec
 CONSTANTS
  L = 3
  Chains <- TChains
+ Closed <- TClosed
  Grid <- TGrid
  Bundle <- TBundle
  MaxIter = 80
